@@ -12,15 +12,21 @@ import (
 
 // Lean is a running instance of the Lean model driver (bhsdriver).
 type Lean struct {
-	cmd *exec.Cmd
-	in  io.WriteCloser
-	w   *bufio.Writer
-	out *bufio.Reader
-	Ops int
+	// Stub: no model driver is available (the Lean model no longer builds against the regenerated modules);
+	// every question is answered "no-model" so that the implementation side and the Go oracle still run.
+	Stub bool
+	cmd  *exec.Cmd
+	in   io.WriteCloser
+	w    *bufio.Writer
+	out  *bufio.Reader
+	Ops  int
 }
 
 // StartLean starts the driver executable.
 func StartLean(path string) (*Lean, error) {
+	if path == "none" || path == "" {
+		return &Lean{Stub: true}, nil
+	}
 	cmd := exec.Command(path)
 	in, err := cmd.StdinPipe()
 	if err != nil {
@@ -47,6 +53,9 @@ func (l *Lean) readLine() (string, error) {
 
 // Ask sends one operation line and returns the model's answer line.
 func (l *Lean) Ask(line string) (string, error) {
+	if l.Stub {
+		return "no-model", nil
+	}
 	l.Ops++
 	if _, err := l.w.WriteString(line + "\n"); err != nil {
 		return "", err
@@ -60,6 +69,13 @@ func (l *Lean) Ask(line string) (string, error) {
 // AskBatch sends many lines and returns the answers (writer runs concurrently
 // so that large batches do not deadlock on the pipes).
 func (l *Lean) AskBatch(lines []string) ([]string, error) {
+	if l.Stub {
+		res := make([]string, len(lines))
+		for i := range res {
+			res[i] = "no-model"
+		}
+		return res, nil
+	}
 	l.Ops += len(lines)
 	errc := make(chan error, 1)
 	go func() {
@@ -84,6 +100,9 @@ func (l *Lean) AskBatch(lines []string) ([]string, error) {
 
 // Close ends the driver.
 func (l *Lean) Close() {
+	if l.Stub {
+		return
+	}
 	_ = l.in.Close()
 	_ = l.cmd.Wait()
 }
